@@ -69,6 +69,25 @@ fn check_state<K: Kernel<D, Scalar = f64>, const D: usize>(rep: &Report, cn: &Cn
         if a < b { (a, b) } else { (b, a) }
     };
     // ---------- non-indexed ----------
+    // EdgeKey identity: every API must hand out the canonical key (== EdgeKey::new of its endpoints), so that keys
+    // obtained from different APIs compare equal and hash alike
+    {
+        use delaunay::core::edge::EdgeKey;
+        let raw: Vec<EdgeKey> = dt.edges().collect();
+        let canon = |e: &EdgeKey| *e == EdgeKey::new(e.v0(), e.v1()) && *e == EdgeKey::new(e.v1(), e.v0());
+        cmp("edges(canonical keys)", raw.iter().all(canon), format!("{:?}", raw.iter().find(|e| !canon(e))));
+        let raw_set: std::collections::HashSet<EdgeKey> = raw.iter().copied().collect();
+        for (v, _) in dt.vertices() {
+            let inc: Vec<EdgeKey> = dt.incident_edges(v).collect();
+            cmp("incident_edges(canonical keys)", inc.iter().all(canon) && inc.iter().all(|e| raw_set.contains(e)), format!("vertex {v:?}"));
+        }
+        if let Ok(ix) = dt.build_adjacency_index() {
+            let ixs: std::collections::HashSet<EdgeKey> = dt.edges_with_index(&ix).collect();
+            cmp("edges_with_index == edges (as keys)", ixs == raw_set, format!("{} vs {}", ixs.len(), raw_set.len()));
+            let ixs2: std::collections::HashSet<EdgeKey> = ix.edges().collect();
+            cmp("AdjacencyIndex::edges == edges (as keys)", ixs2 == raw_set, String::new());
+        }
+    }
     let edges: Vec<(VertexKey, VertexKey)> = dt.edges().map(ekey).collect();
     let eset: BTreeSet<_> = edges.iter().copied().collect();
     cmp("edges", eset == ref_edges && edges.len() == eset.len(), format!("{} edges ({} distinct) vs {} by enumeration", edges.len(), eset.len(), ref_edges.len()));
@@ -190,6 +209,24 @@ fn run_set<K: Kernel<D, Scalar = f64>, const D: usize>(rep: &Report, cn: &Cn, kn
             corpus.push(("after_insert".into(), d));
         }
     }
+    // slot reuse: remove a vertex, then insert new points (the new vertices take over vacated slots with a bumped
+    // version and end up adjacent to older keys)
+    if let Some((_, first)) = corpus.first().cloned() {
+        for v in 0..first.number_of_vertices() {
+            let mut d = first.clone();
+            if !matches!(model::apply(&mut d, &Op::Remove { v }, &[]), Outcome::Ok { .. }) {
+                continue;
+            }
+            let mut k = 0;
+            for c in [[0.37; D], [0.61; D], [0.23; D]] {
+                let mut q = c;
+                q[0] += 0.05 * v as f64;
+                let _ = model::apply(&mut d, &Op::InsertAt { c: q.to_vec(), uid: 900 + 10 * v as u32 + k, stats: false }, &[]);
+                k += 1;
+            }
+            corpus.push((format!("remove({v})+3 inserts"), d));
+        }
+    }
     for (prov, dt) in &corpus {
         if vcore::corpus::is_valid_triangulation(dt) {
             check_state(rep, cn, kname, family, prov, dt);
@@ -216,6 +253,9 @@ fn run_family<const D: usize>(rep: &Report, cn: &Cn, family: &str, alphabet: &[[
 
 fn main() {
     let args = parse_args();
+    if let Some(p) = &args.replay {
+        std::process::exit(vcore::replay::generic(p));
+    }
     silence_panics();
     let rep = Report::new("C15", &args);
     let thorough = args.tier == Tier::Thorough;
